@@ -15,17 +15,26 @@ namespace detail {
 template <typename T>
 [[nodiscard]] constexpr auto nextafter(T from, T to) -> T
 {
-    using U             = etl::conditional_t<sizeof(T) == 4U, etl::uint32_t, etl::uint64_t>;
-    auto const fromBits = etl::bit_cast<U>(from);
-    auto const toBits   = etl::bit_cast<U>(to);
-    if (toBits == fromBits) {
-        return to;
+    using U = etl::conditional_t<sizeof(T) == 4U, etl::uint32_t, etl::uint64_t>;
+
+    if (from != from or to != to) {
+        return from + to; // NaN
     }
-    if (toBits > fromBits) {
-        return etl::bit_cast<T>(fromBits + 1);
+    if (from == to) {
+        return to; // also nextafter(-0.0, +0.0) == +0.0
     }
-    return etl::bit_cast<T>(fromBits - 1);
+    if (from == T(0)) {
+        // smallest subnormal with the sign of the direction
+        auto const tiny = etl::bit_cast<T>(U(1));
+        return to > T(0) ? tiny : -tiny;
+    }
+
+    // the bit pattern of |from| grows with the magnitude: step away from zero or towards it
+    auto const bits = etl::bit_cast<U>(from);
+    auto const away = (to > from) == (from > T(0));
+    return etl::bit_cast<T>(away ? U(bits + 1) : U(bits - 1));
 }
+
 } // namespace detail
 
 /// \ingroup cmath
